@@ -179,8 +179,16 @@ def judge(name, text, schema_names, exp_ents, exp_types, res):
     if res['rc'] != 0:
         return [('generator-exit/%s/%s' % (res['rc'], fam), 'exp2python exits %s on an accepted schema: %s' % (res['rc'], res['out'][-160:]))]
     want_mods = sorted(s.lower() + '.py' for s in schema_names)
-    if sorted(f for f in res['files'] if f.endswith('.py')) != want_mods:
-        out.append(('module-set/%s' % fam, 'modules written %s, schemas %s' % (res['files'], want_mods)))
+    got_mods = sorted(f for f in res['files'] if f.endswith('.py'))
+    if got_mods != want_mods:
+        # what went wrong names the defect, not the family the schema came from
+        if any(re.fullmatch(r'(.+)_\d+\.py', f) and re.fullmatch(r'(.+)_\d+\.py', f).group(1) + '.py' in want_mods for f in got_mods):
+            shape = 'multi-pass-suffix-modules/%s' % ('multi-schema-file' if len(schema_names) > 1 else 'single-schema-file')
+        elif not got_mods:
+            shape = 'no-module'
+        else:
+            shape = 'missing' if set(got_mods) < set(want_mods) else 'other'
+        out.append(('module-set/%s' % shape, 'modules written %s, schemas %s' % (res['files'], want_mods)))
     if 'inspect_error' in res:
         return out + [('inspect-failed/%s' % fam, res['inspect_error'][-200:])]
     classes = {}
@@ -190,7 +198,14 @@ def judge(name, text, schema_names, exp_ents, exp_types, res):
             out.append(('does-not-compile/%s' % '_'.join(name.replace('/', '_').split('_')[:2]), 'module %s does not compile: %s' % (mod, d['compile_error'])))
             continue
         if 'import_error' in d:
-            out.append(('does-not-import/%s/%s' % (re.sub(r'[^A-Za-z]+', '_', d['import_error'].split(':')[0]), '_'.join(name.replace('/', '_').split('_')[:3])), 'module %s does not import: %s' % (mod, d['import_error'])))
+            ek = '_'.join(name.replace('/', '_').split('_')[:3])
+            mname = re.search(r"NameError: name '(\w+)' is not defined", d['import_error'])
+            if mname and len(schema_names) > 1:
+                # a name declared in ANOTHER schema of the file and interfaced into this one
+                other = re.sub(r'(?is)SCHEMA\s+%s\s*;.*?END_SCHEMA\s*;' % re.escape(mod), '', text)
+                if re.search(r'(?i)\b(ENTITY|TYPE)\s+%s\b' % re.escape(mname.group(1).rstrip('_')), other):
+                    ek = 'interfaced-name-not-imported'
+            out.append(('does-not-import/%s/%s' % (re.sub(r'[^A-Za-z]+', '_', d['import_error'].split(':')[0]), ek), 'module %s does not import: %s' % (mod, d['import_error'])))
             continue
         classes.update(d['classes'])
         others.update(d['others'])
@@ -330,6 +345,12 @@ def family_F(tier):
                                           smodel.TypeDecl('colour', ('enum', ['red', 'green'])), smodel.TypeDecl('lambda', ('select', ['class', 'pass']))],
                              [smodel.Entity('class', [smodel.Attr('c1', I)]), smodel.Entity('grp', [smodel.Attr('g1', I)]), smodel.Entity('pass', [smodel.Attr('p1', I)]),
                               smodel.Entity('assignment', [smodel.Attr('item', N('pick')), smodel.Attr('what', N('import')), smodel.Attr('how', N('lambda'))])]))
+    # four and five direct supertypes of different depths, in every rotation of the list (the generator sorts the bases)
+    import itertools as _it
+    sup4 = ['named', 'priced', 'dated', 'engine']           # engine is the only one with a supertype of its own
+    for k4, perm4 in enumerate(_it.permutations(sup4) if tier == 'thorough' else [sup4, sup4[::-1], ['engine', 'named', 'priced', 'dated'], ['named', 'engine', 'priced', 'dated'], ['named', 'priced', 'engine', 'dated']]):
+        out.append(smodel.Schema('n_sup4_%d' % k4, [], [one('machine'), one('named'), one('priced'), one('dated'), one('engine', ['machine']), one('car', list(perm4)), one('moped', list(perm4)[:3])]))
+    out.append(smodel.Schema('n_sup5', [], [one('m0'), one('m1', ['m0']), one('m2', ['m1']), one('s1'), one('s2'), one('s3'), one('w5', ['s1', 's2', 'm2', 's3', 'm1']), one('v5', ['m2', 's1', 'm1', 's2', 's3'])]))
     sys.path.insert(0, '/verif/checks')
     import c02
     mi = lambda sup: any(len(sup[i]) > 1 and any(len(sup[j]) > 1 for j in sup[i][1:]) for i in range(len(sup)))
@@ -352,6 +373,11 @@ def programs(tier):
             ee, tt = expected(f1)
             progs.append((f1.name, f1.express(), [f1.name], ee, tt))
     for name, text in gfam.valid_schemas(tier, with_models=False):
+        snames = re.findall(r'(?im)^SCHEMA\s+([A-Za-z][A-Za-z0-9_]*)', text)
+        progs.append(('g/' + name, text, snames, text_expectation(text), None))
+    # shapes whose handling depends on the order in which the generator meets the declarations (shared with C17): one module per schema, whatever the names
+    import c17
+    for name, text in c17.order_dependent(tier):
         snames = re.findall(r'(?im)^SCHEMA\s+([A-Za-z][A-Za-z0-9_]*)', text)
         progs.append(('g/' + name, text, snames, text_expectation(text), None))
     for n, p in gfam.shipped():
